@@ -737,6 +737,11 @@ def fam_slice(tier, seed, extra=()):
     # (len of / indexing into an array slice is rejected by the checker: the static type of an array
     #  slice is its ELEMENT type — observation D5 in DESIGN — so that consistency is checked on strings)
     out.append(Case("slice/len", "s := \"0123456\"; std.len(s[1:-1:2]) == 3 && s[1:-1:2][2] == s[5]", True, mode="std"))
+    # the kind of the result follows the VALUE, not the static type of the operand
+    out.append(Case("slice/union_operand", "f := (s: string | [int]) -> any { return s[1:] }; (f(\"abc\"), f([1, 2, 3]))", ("bc", [2, 3])))
+    out.append(Case("slice/union_operand_step", "f := (s: [int] | string, k: int) -> any { return s[::k] }; (f(\"abcd\", 2), f([1, 2, 3, 4], 0 - 1))", ("ac", [4, 3, 2, 1])))
+    out.append(Case("slice/any_array_operand", "f := (s: [any] | string) -> any { return s[:1] }; (f([1.5, \"x\"]), f(\"xy\"))", ([1.5], "x")))
+    out.append(Case("slice/union_in_closure", "mk := (s: string | [int]) -> () -> any { return () -> any { return s[1:2] } }; (mk(\"abc\")(), mk([7, 8, 9])())", ("b", [8])))
     return out
 
 
@@ -856,6 +861,19 @@ def fam_order(tier, seed, extra=()):
         out.append(Case(f"order/ifset/lit_else/{c}", PRE + "v := (k: int, b: bool) -> int | float { log = *log * 10 + k; if b { return 1 } return 1.5 }; "
                         f"r := if x: int = v(1, {c}) tb(2, true) else false; (r, *log)", (cv, 12 if cv else 1)))
         out.append(Case(f"order/match/lit_arm/{c}", PRE + f"r := match tb(1, {c}) {{ (true) => tb(2, true), => false, }}; (r, *log)", (cv, 12 if cv else 1)))
+    # an error in one element stops the evaluation of the elements after it (REPL style: the log cell survives the error)
+    pre_steps = PRE + "z := mut 0; g := (a: int, b: int, c: int) -> int { return a + b + c }"
+    for k, (expr, exp_log) in enumerate([
+        ("[t(1), t(2) / *z, t(3)]", 12), ("(t(1), t(2) / *z, t(3))", 12), ("struct{a := t(1), b := t(2) / *z, c := t(3)}", 12),
+        ("struct{a := t(1) / *z, b := t(2)}", 1), ("g(t(1), t(2) / *z, t(3))", 12), ("[0, 1, 2, 3][t(1):t(2) / *z:t(3)]", 12),
+        ("[0, 1, 2, 3][t(1) / *z:t(2)]", 1), ("[t(1) / *z; t(2)]", 1), ("[t(1); t(2) / *z]", 12), ("t(1) / *z + t(2)", 1),
+        ("(t(1) + t(2) / *z) * t(3)", 12), ("[t(1), t(2)][t(3) / *z]", 123), ("tb(1, true) && (t(2) / *z > 0) && tb(3, true)", 12),
+        ("[[t(1)], [t(2) / *z], [t(3)]]", 12), ("(t(1), (t(2), t(3) / *z), t(4))", 123),
+    ]):
+        out.append(Case(f"order/error_stops/{k}", STEP_SEP.join([pre_steps, expr, "*log"]), Steps([None, Err(E_ZDIV), exp_log]), {}, "steps",
+                        what=f"an error inside `{expr}` stops the evaluation"))
+        out.append(Case(f"order/error_stops/fn/{k}", STEP_SEP.join([pre_steps + f"; f := () -> any {{ return {expr} }}", "f()", "*log"]),
+                        Steps([None, Err(E_ZDIV), exp_log]), {}, "steps"))
     # match: scrutinee once, candidates top to bottom until the first match, only the chosen arm
     out.append(Case("order/match/0", PRE + "r := match t(2) { (t(1)) => t(7), (t(2)) => t(8), (t(3)) => t(6), => t(9), }; (r, *log)",
                     (8, 2128)))
@@ -1107,6 +1125,14 @@ TWIN_TEMPLATES = [
     ("float_ops", "x := 1.5; y := x * 2.0 - 0.25; (y, y / 0.0, y > x, -y)"),
     ("struct", "s := struct{a := A, b := B + C}; (s.a, s.b)"),
     # names re-bound by the statement that also reads them (the literal side runs these as TOP-LEVEL statements)
+    # a binder that shadows an outer name must not leak into the code after the construct
+    ("match_binder_shadows", "x := A; v := if A == A { B } else { 2.5 }; r := match v { x: int => x + 1, => 0, }; (r, x)"),
+    ("match_binder_shadows_runtime_outer", "m := mut A; x := *m; v := if A == A { B } else { 2.5 }; r := match v { x: int => x + 1, => 0, }; (r, x)"),
+    ("ifset_binder_shadows", "x := A; r := if x: int = B { x + 1 } else { 0 }; (r, x)"),
+    ("for_binder_shadows", "x := A; s := mut 0; for x in [B, C]~ { s += x }; (*s, x)"),
+    ("param_shadows", "x := A; f := (x: int) -> int { return x + 1 }; (f(B), x)"),
+    ("block_shadows", "x := A; y := { x := B; x + 1 }; (x, y)"),
+    ("whileset_binder_shadows", "x := A; n := mut 0; pick := (k: int) -> int | float { if k < 2 { return B } return 2.5 }; while x: int = pick(*n) { n += 1 }; (*n, x)"),
     ("destruct_swap_mixed", "x := A; m := mut B; y := *m; (x, y) := (y, x); (x, y)"),
     ("destruct_swap_constants", "x := A; y := B; (x, y) := (y, x); (x, y)"),
     ("destruct_rebind_reads_old", "m := mut A; x := *m; (x, y) := (B, x); (x, y)"),
@@ -1904,6 +1930,9 @@ FAMILIES = {
 def family(name, tier="quick", seed=0, extra=()):
     if name.startswith("arith:"):
         return fam_arith(name.split(":", 1)[1], tier, seed, extra)
+    if name == "capture":
+        import probes_capture
+        return probes_capture.fam_capture(tier, seed, extra)
     if name in ("cells", "cells_random"):
         import probes_cells
         return (probes_cells.fam_cells if name == "cells" else probes_cells.fam_cells_random)(tier, seed, extra)
